@@ -703,4 +703,181 @@ theorem incRow_outcome {k : RowKey} {c0 : Cell} {rest : List Cell} (h : CumRowDa
     simp only [herr]
 
 
+
+/-- the non-value part of `IncRow` -/
+structure IncRowDates (k : RowKey) (row : List Cell) : Prop where
+  key : ∀ c ∈ row, rowKey c = k
+  dates : ∀ c ∈ row, c.datesOk = true
+
+theorem IncRowDates.tail {k : RowKey} {c : Cell} {row : List Cell} (h : IncRowDates k (c :: row)) :
+    IncRowDates k row :=
+  ⟨fun x hx => h.key x (List.mem_cons_of_mem _ hx), fun x hx => h.dates x (List.mem_cons_of_mem _ hx)⟩
+
+theorem cumPairs_outcome (k : RowKey) : ∀ (rest : List Cell) (px pc : Cell),
+    IncRowDates k (px :: rest) → AdjOK (px :: rest) →
+    pc.values.map (·.1) = px.values.map (·.1) → TyEq pc.values px.values →
+    ((∃ cs, cumPairs k pc.ev pc.values rest = .ok cs) ∧ ¬ HasMismatch (px :: rest)) ∨
+    cumPairs k pc.ev pc.values rest = .error .triangleError
+  | [], _, _, _, _, _, _ => Or.inl ⟨⟨[], rfl⟩, fun h => h⟩
+  | x :: rest, px, pc, h, hadj, hkeys, hty => by
+    by_cases hp : x.prev = some pc.ev
+    · have hp' : (x.prev != some pc.ev) = false := by simp [hp]
+      by_cases hsk : sameKeys px.values x.values = true
+      · have hsk' : sameKeys pc.values x.values = true := by rw [sameKeys_congr hkeys rfl]; exact hsk
+        have hcomp : DictCompat pc.values x.values := by
+          intro kv hkv hns
+          have hc : DictCompat px.values x.values := by
+            rcases hadj.1 with e | e
+            · rw [hsk] at e; cases e
+            · exact e
+          obtain ⟨τ, h1, h2⟩ := hc kv hkv hns
+          exact ⟨τ, by rw [hty kv.1 hns]; exact h1, h2⟩
+        obtain ⟨v, hv1, _, hv3, hv4⟩ := valuesAdd_diff hsk' hcomp
+        have hkx : rowKey x = k := h.key x (by simp)
+        have hdx := h.dates x (by simp)
+        have hps : k.1.1 = x.ps := by rw [← hkx]; rfl
+        have hpe : k.1.2 = x.pe := by rw [← hkx]; rfl
+        let c : Cell := { kind := .cumulative, ps := k.1.1, pe := k.1.2, ev := x.ev, md := k.2, values := v }
+        have hc : c.datesOk = true := by
+          have := datesOk_base hdx
+          simp only [Cell.datesOk, c, hps, hpe]
+          simp only [Bool.and_eq_true] at this ⊢
+          exact ⟨this, trivial⟩
+        have hceq : ({ kind := .cumulative, ps := k.1.1, pe := k.1.2, ev := x.ev, md := k.2, values := v } : Cell) = c :=
+          rfl
+        rcases cumPairs_outcome k rest x c h.tail hadj.2 hv3 hv4 with ⟨⟨cs, hcs⟩, hno⟩ | herr
+        · left
+          have hcs' : cumPairs k x.ev v rest = .ok cs := hcs
+          refine ⟨⟨c :: cs, ?_⟩, ?_⟩
+          · simp only [cumPairs, hp', Bool.false_eq_true, if_false, hv1, bind, Except.bind, Cell.mk?]
+            rw [hceq, if_pos hc]
+            simp only [hcs', pure, Except.pure]
+          · intro hm
+            rcases hm with e | e
+            · rw [hsk] at e; cases e
+            · exact hno e
+        · right
+          have herr' : cumPairs k x.ev v rest = .error .triangleError := herr
+          simp only [cumPairs, hp', Bool.false_eq_true, if_false, hv1, bind, Except.bind, Cell.mk?]
+          rw [hceq, if_pos hc]
+          simp only [herr']
+      · right
+        have hsk' : sameKeys pc.values x.values = false := by
+          rw [sameKeys_congr hkeys rfl]; simpa using hsk
+        simp [cumPairs, hp', valuesAdd, hsk', bind, Except.bind]
+    · right
+      have hp' : (x.prev != some pc.ev) = true := by simpa using hp
+      simp [cumPairs, hp']
+
+/-- outcome of `to_cumulative` on one row whose values are compatible apart from key sets: it either
+converts (then no two consecutive cells differ in their key sets) or raises `TriangleError` -/
+theorem cumRow_outcome {k : RowKey} {x0 : Cell} {rest : List Cell} (h : IncRowDates k (x0 :: rest))
+    (hadj : AdjOK (x0 :: rest)) :
+    ((∃ cs, cumRow k (x0 :: rest) = .ok cs) ∧ ¬ HasMismatch (x0 :: rest)) ∨
+    cumRow k (x0 :: rest) = .error .triangleError := by
+  by_cases hchk : ((x0.prev.map Date.succ) != some x0.ps) = true
+  · right; simp [cumRow, hchk]
+  · have hchk' : ((x0.prev.map Date.succ) != some x0.ps) = false := by simpa using hchk
+    have hk0 : rowKey x0 = k := h.key x0 (by simp)
+    have hd0 := h.dates x0 (by simp)
+    have hps : k.1.1 = x0.ps := by rw [← hk0]; rfl
+    have hpe : k.1.2 = x0.pe := by rw [← hk0]; rfl
+    let c0 : Cell := { kind := .cumulative, ps := k.1.1, pe := k.1.2, ev := x0.ev, md := k.2,
+                       values := x0.values }
+    have hc : c0.datesOk = true := by
+      have := datesOk_base hd0
+      simp only [Cell.datesOk, c0, hps, hpe]
+      simp only [Bool.and_eq_true] at this ⊢
+      exact ⟨this, trivial⟩
+    have hceq : ({ kind := .cumulative, ps := k.1.1, pe := k.1.2, ev := x0.ev, md := k.2,
+                   values := x0.values } : Cell) = c0 := rfl
+    rcases cumPairs_outcome k rest x0 c0 h hadj rfl (fun _ _ => rfl) with ⟨⟨cs, hcs⟩, hno⟩ | herr
+    · left
+      have hcs' : cumPairs k x0.ev x0.values rest = .ok cs := hcs
+      refine ⟨⟨c0 :: cs, ?_⟩, hno⟩
+      simp only [cumRow, hchk', Bool.false_eq_true, if_false, bind, Except.bind, Cell.mk?]
+      rw [hceq, if_pos hc]
+      simp only [hcs', pure, Except.pure]
+    · right
+      have herr' : cumPairs k x0.ev x0.values rest = .error .triangleError := herr
+      simp only [cumRow, hchk', Bool.false_eq_true, if_false, bind, Except.bind, Cell.mk?]
+      rw [hceq, if_pos hc]
+      simp only [herr']
+
+
+
+/-- in the sorted concatenation of keyed, strictly sorted blocks, the cells under one key are exactly
+that block, in its order -/
+theorem sorted_blocks_filter {L : List (RowKey × List Cell)} (hnd : (L.map (·.1)).Nodup)
+    (hkey : ∀ p ∈ L, ∀ c ∈ p.2, rowKey c = p.1) (hs : ∀ p ∈ L, StrictSorted p.2) :
+    ∀ p ∈ L, ((L.flatMap (·.2)).mergeSort Cell.le).filter (fun c => rowKey c == p.1) = p.2 := by
+  intro p hp
+  have hperm := List.mergeSort_perm (L.flatMap (·.2)) Cell.le
+  have h1 : (((L.flatMap (·.2)).mergeSort Cell.le).filter (fun c => rowKey c == p.1)).mergeSort Cell.le
+      = p.2 := by
+    apply sort_eq_of_perm_strict _ (hs p hp)
+    have := hperm.filter (fun c => rowKey c == p.1)
+    rwa [filter_flatMap_block L hnd hkey p hp] at this
+  have h2 := mergeSort_sublist_sorted (cmp := Cell.cmp)
+    (List.filter_sublist (p := fun c => rowKey c == p.1) (l := (L.flatMap (·.2)).mergeSort Cell.le))
+    (sorted_mergeSort (cmp := Cell.cmp) _)
+  rw [← h2]; exact h1
+
+/-- running a row function over a strictly sorted triangle and re-sorting: the cells of the result
+under one row key are exactly the output of the row function on that row -/
+theorem overRows_blocks {f : RowKey → List Cell → Except Err (List Cell)} {t : List Cell}
+    (hs : StrictSorted t)
+    (hrow : ∀ k r, r ≠ [] → r = t.filter (fun c => rowKey c == k) →
+      ∃ d, f k r = .ok d ∧ (∀ c ∈ d, rowKey c = k) ∧ StrictSorted d) :
+    ∃ D, overRows f t = .ok D ∧ ∀ k r, r ≠ [] → r = t.filter (fun c => rowKey c == k) →
+      ∃ d, f k r = .ok d ∧ (D.mergeSort Cell.le).filter (fun c => rowKey c == k) = d := by
+  have G := groupBy_inv rowKey t
+  have hrows : orderedRows t = groupBy rowKey t := orderedRows_of_strict hs
+  have R : ∀ p ∈ orderedRows t, p.2 ≠ [] ∧ p.2 = t.filter (fun c => rowKey c == p.1) := by
+    intro p hp
+    rw [hrows] at hp
+    have hc := G.content p hp
+    refine ⟨?_, hc⟩
+    obtain ⟨a, ha, hak⟩ := G.inhabited p hp
+    intro e
+    have : a ∈ p.2 := by rw [hc]; exact List.mem_filter.mpr ⟨ha, by simp [hak]⟩
+    rw [e] at this; cases this
+  let gI : RowKey × List Cell → List Cell := fun p => okD (f p.1 p.2) []
+  have RI : ∀ p ∈ orderedRows t, f p.1 p.2 = .ok (gI p) ∧ (∀ c ∈ gI p, rowKey c = p.1) ∧
+      StrictSorted (gI p) := by
+    intro p hp
+    obtain ⟨h1, h2⟩ := R p hp
+    obtain ⟨d, hd1, hd⟩ := hrow p.1 p.2 h1 h2
+    have : gI p = d := by simp [gI, okD, hd1]
+    rw [this]; exact ⟨hd1, hd⟩
+  let L : List (RowKey × List Cell) := (orderedRows t).map (fun p => (p.1, gI p))
+  have hLD : L.flatMap (·.2) = (orderedRows t).flatMap gI := by
+    simp [L, List.flatMap_map]
+  have hLk : L.map (·.1) = (groupBy rowKey t).map (·.1) := by
+    simp only [L, List.map_map, hrows]; rfl
+  refine ⟨(orderedRows t).flatMap gI, overRows_ok (fun p hp => (RI p hp).1), ?_⟩
+  intro k r hne hr
+  obtain ⟨a, ha⟩ := List.exists_mem_of_ne_nil _ hne
+  rw [hr] at ha
+  obtain ⟨hat, hak⟩ := List.mem_filter.mp ha
+  have hak : rowKey a = k := by simpa using hak
+  obtain ⟨p, hp, hpk⟩ := G.covers a hat
+  have hpk : p.1 = k := hpk.trans hak
+  have hp' : p ∈ orderedRows t := by rw [hrows]; exact hp
+  have hpr : p.2 = r := by rw [(R p hp').2, hpk, hr]
+  refine ⟨gI p, by rw [← hpk, ← hpr]; exact (RI p hp').1, ?_⟩
+  have := sorted_blocks_filter (L := L) (by rw [hLk]; exact G.nodup)
+    (by
+      intro q hq
+      obtain ⟨p', hp'', rfl⟩ := List.mem_map.mp hq
+      exact (RI p' hp'').2.1)
+    (by
+      intro q hq
+      obtain ⟨p', hp'', rfl⟩ := List.mem_map.mp hq
+      exact (RI p' hp'').2.2)
+    (p.1, gI p) (List.mem_map_of_mem (f := fun p : RowKey × List Cell => (p.1, gI p)) hp')
+  rw [hLD] at this
+  rw [← hpk]; exact this
+
+
 end Bermuda
